@@ -36,7 +36,8 @@ try:
         if demo.endswith("_test.go"):
             base = pkg[:-5] if pkg.endswith("_test") else pkg
             d = "." if base in ("textwire",) else base
-            if not os.path.isdir(os.path.join(wt, d)): d = "."
+            if not os.path.isdir(os.path.join(wt, d)):
+                os.makedirs(os.path.join(wt, d))  # a demonstration that is a package of its own
             dst = os.path.join(wt, d, "zz_seed_demo_test.go")
             shutil.copy(os.path.join(seed, demo), dst)
             return ("test", d, dst)
@@ -46,7 +47,8 @@ try:
     def run_demo(pl):
         if pl is None: return None
         if pl[0] == "test":
-            race = ["-race"] if "race" in open(os.path.join(seed, "NOTES.md")).read().lower() and prop == "C15" else []
+            notes = open(os.path.join(seed, "NOTES.md")).read().lower()
+            race = ["-race"] if ("race" in notes and prop == "C15") or "go test -race" in notes else []
             r = sh(["go", "test", "-mod=mod", "-vet=off", "-count=1"] + race + ["./" + pl[1].lstrip("./") if pl[1] != "." else "."], cwd=wt)
         else:
             r = sh(["go", "run", pl[1]], cwd=wt)
